@@ -418,6 +418,25 @@ func c17Ops() []c17Op {
 				})
 		}},
 
+		// ---- a connection without writer (every send to it fails): its discovery reply and some of its requests are
+		// handled, then the requests an application sends to a peer are issued, each at least twice per duel
+		{name: "mute.discovery-reply+requests", conn: true, f: func(cw *c17W, s, side, k int) {
+			rd := cw.muteIn(s, k%16 == 15, k%2 == 0, func(m *c17Mute, send func(cl model.CmdClassifierType, src, dst *model.FeatureAddressType, ack bool, ref *model.MsgCounterType, cmd model.CmdType)) {
+				nm := rig.FA(m.addr, []uint{0}, 0)
+				send(read, nm, rig.LNM, false, nil, model.CmdType{NodeManagementDetailedDiscoveryData: &model.NodeManagementDetailedDiscoveryDataType{}})
+				send(call, nm, rig.LNM, true, nil, model.CmdType{NodeManagementSubscriptionRequestCall: spine.NewNodeManagementSubscriptionRequestCallType(rig.FA(m.addr, e1a, 1), cw.lc.Address(), model.FeatureTypeTypeLoadControl)})
+			})
+			cw.muteRequests(s, rd, k)
+		}},
+
+		// ---- what the removal of a remote entity runs on every local feature, called by the application
+		{name: "api.CleanRemoteEntityCaches", conn: true, f: func(cw *c17W, s, side, k int) {
+			cw.local.CleanRemoteEntityCaches(rig.EA(cw.cn(s).addr, []uint{2}))
+			if k%2 == 1 {
+				cw.lc.CleanRemoteEntityCaches(rig.EA(cw.cn(s).addr, e1a)) // the entity pending writes come from
+			}
+		}},
+
 		// ---- event bus
 		{name: "api.Events.Subscribe+Unsubscribe", f: func(cw *c17W, s, side, k int) {
 			h := &c17Handler{cw: cw}
